@@ -4,6 +4,6 @@ E(h, fp, ok) == [h |-> h, fp |-> fp, ok |-> ok]
 IH == {"h1", "h2"}      \* hosts named in import files (single-statement operations range over all hosts)
 EntrySets == {<<>>} \cup { <<E(h, f, ok)>> : h \in IH, f \in Fps, ok \in BOOLEAN }
    \cup { <<E(h1, f1, ok1), E(h2, f2, ok2)>> : h1 \in IH, h2 \in IH, f1 \in Fps, f2 \in Fps, ok1 \in BOOLEAN, ok2 \in BOOLEAN }
-MCOps == { [kind |-> k, h |-> h, fp |-> f, merge |-> TRUE, entries |-> <<>>, policy |-> "skip"] : k \in {"trust", "revoke", "revokeName", "clear"}, h \in Hosts, f \in Fps }
+MCOps == { [kind |-> k, h |-> h, fp |-> f, merge |-> TRUE, entries |-> <<>>, policy |-> "skip"] : k \in {"trust", "revoke", "revokeName", "revokeNoPort", "clear"}, h \in Hosts, f \in Fps }
    \cup { [kind |-> "import", h |-> "h1", fp |-> "f1", merge |-> m, entries |-> es, policy |-> p] : m \in BOOLEAN, es \in EntrySets, p \in {"skip", "update", "raise"} }
 ====
